@@ -2827,6 +2827,14 @@ def coverage(done, tier):
             "generator_calls_by_layout": {k[10:]: v for k, v in tot.items() if k.startswith("feat_mode_")},
             "descriptor_generator_coordinate_retargets": tot["coordinate_retargets"],
             "force_evaluations_rejected_as_unsupported_by_both": tot["grad_not_implemented_on_both"],
+            "gradient_driver_requests": {k[len("gradient_potential_calls_") :]: v for k, v in sorted(tot.items()) if k.startswith("gradient_potential_calls_") and "nset" not in k},
+            "functional_swaps_on_one_ks_object": tot["functional_swaps_on_one_ks_object"],
+            "functional_swaps_without_initializer_objects": tot["functional_swaps_without_initializers"],
+            "analyses_of_a_live_ks_object_at_another_grid_level": tot["analyzer_other_level"],
+            "analyses_interrupted_inside_the_temporary_grid_evaluation": tot["analyses_interrupted_by_injected_failure"],
+            "special_entries_in_feature_list_inputs_nan_zero_huge": tot["special_input_entries"],
+            "displaced_indefinite_matrix_requests_refused_by_fresh_objects_too": tot["displaced_matrix_refused_by_fresh_objects_too"],
+            "feature_list_requests_refused_by_fresh_lists_too": tot["requests_refused_by_fresh_lists_too"],
         },
         "probes": {
             "nldf_generator_reused": tot["nldf_generator_reused"],
